@@ -46,6 +46,7 @@ DECIDING = {
     "copied_owners": "copy.copy() of an owner after its signals were bound",
     "super_access_first": "base declaration of an overridden signal reached first through super()",
     "contract_evaluations": "icontract post-condition on Signal.__get__ evaluated",
+    "suite_contract_evaluations": "post-condition evaluated on every signal binding made while the repository's test-suite runs",
 }
 ASSUMPTIONS = [
     "owners are hashable and weak-referenceable (the Signal docs annotate the owner as Hashable)",
@@ -270,7 +271,7 @@ def gc_check(cls: Any, kind: str, names: list[str]) -> tuple[bool, list[Any]]:
 
 def plan(tier: str) -> dict[str, Any]:
     n_rand = 1000 if tier == "quick" else 100000
-    return {"cases": len(_ENUM) + n_rand, "budget_s": 60 if tier == "quick" else 1200, "min_per_shard": 40, "min_cases": len(_ENUM)}
+    return {"cases": len(_ENUM) + n_rand + 1, "budget_s": 60 if tier == "quick" else 1200, "min_per_shard": 40, "min_cases": len(_ENUM)}
 
 
 def _enum_cases() -> list[dict[str, Any]]:
@@ -298,6 +299,8 @@ _ENUM = _enum_cases()
 
 
 def gen_case(idx: int, seed: int, tier: str) -> Any:
+    if idx == plan(tier)["cases"] - 1:
+        return {"kind": "suite"}  # the repository's own tests as one more workload, with the contract on
     if idx < len(_ENUM):
         return _ENUM[idx]
     rng = case_rng(PROPERTY, seed, idx)
@@ -317,6 +320,14 @@ def gen_case(idx: int, seed: int, tier: str) -> Any:
 
 
 def run_case(case: Any) -> dict[str, Any]:
+    if case["kind"] == "suite":
+        from monitors.suite_run import run_suite_with_contracts
+
+        r = run_suite_with_contracts("Signal.__get__")
+        vs = [{"key": p.get("key"), "msg": "icontract post-condition on Signal.__get__ fired while running the repository's tests: " + p.get("msg", ""), "witness": p}
+              for p in r["problems"][:3]]
+        return {"violations": vs, "sig": "suite", "nontrivial": False, "counters": {"suite_contract_evaluations": r["evaluations"], "suite_runs": int(r["ran"])},
+                "sample": None}
     contracts.install_channel_contract()
     before = contracts.LOG.evaluations.get("Signal.__get__", 0)
     out: dict[str, Any] = {"violations": [], "counters": {}}
